@@ -88,7 +88,8 @@ def check_config(rec, idx, G, workdir, thorough, corrupt=None):
     try:
         t = cfg["t"][0] / cfg["t"][1]
         eps = cfg["eps"][0] / cfg["eps"][1]
-        counts = [(0, 0), (3, 1), (0, 4), (37, 23)] + ([(4100, 900)] if idx % 9 == 0 else []) + ([(60, 0), (1, 59)] if thorough else [])
+        counts = [(0, 0), (3, 1), (0, 4), (37, 23)] + ([(4100, 900), (3, 2997)] if idx % 9 == 0 else [])       # deep rows incl. one where nearly every read is variant (genotype terms thousands of nats apart)
+        counts = counts + ([(60, 0), (1, 59)] if thorough else [])
         rows = []
         for k, (ref, alt) in enumerate(counts):
             rows.append({"mutation_id": "m%02d" % k, "sample_id": "S1", "ref_counts": ref, "alt_counts": alt, "major_cn": cfg["major"], "minor_cn": cfg["minor"],
